@@ -75,7 +75,7 @@ def main():
     files = []
     for p in pats:
         files += sorted(glob.glob(p))
-    outp = os.path.join(ROOT, "mutants", "RESULTS.json")
+    outp = os.environ.get("MUT_OUT") or os.path.join(ROOT, "mutants", "RESULTS.json")
     results = json.load(open(outp)) if os.path.exists(outp) else {}
     tier = os.environ.get("MUT_TIER", "quick")
     props = os.environ.get("MUT_PROPS", ",".join(PROPS)).split(",")
